@@ -268,6 +268,41 @@ impl MatterLocalService {
     }
 }
 
+/// Verification hook (add-only; compiled only with the `verif` feature): [`MatterLocalService::service`]
+/// with the advertised inputs given explicitly instead of being read from a `Matter` object.
+#[cfg(feature = "verif")]
+impl MatterLocalService {
+    /// `icd_lit`: `None` = not an ICD, `Some(false)` = SIT, `Some(true)` = LIT.
+    #[allow(clippy::type_complexity)]
+    pub fn verif_service<'a>(
+        &self,
+        dev_det: &BasicInfoConfig<'_>,
+        matter_port: u16,
+        icd_lit: Option<bool>,
+        buf: &'a mut [u8],
+    ) -> Result<
+        (
+            MdnsLocalService<
+                'a,
+                impl Iterator<Item = &'a str> + Clone,
+                impl Iterator<Item = (&'a str, &'a str)> + Clone,
+            >,
+            &'a mut [u8],
+        ),
+        Error,
+    > {
+        let icd_mode = icd_lit.map(|lit| {
+            if lit {
+                OperatingModeEnum::LIT
+            } else {
+                OperatingModeEnum::SIT
+            }
+        });
+
+        self.service_internal(dev_det, matter_port, icd_mode, buf)
+    }
+}
+
 impl MatterRemoteService {
     /// The DNS-SD service type (without domain) this remote service lives under:
     /// `_matter._tcp` for operational nodes, `_matterc._udp` for commissionable
